@@ -126,7 +126,7 @@ class Prop(PropBase):
         if layout == "readonly":
             data.flags.writeable = False
         kw = {"pol_type": "circular"} if cls == "DualPolarizationSignal" else {}
-        z = sigs.make(pb, cls, L, 1 * u.MHz, sigs.T0S[0], nchan=n, data=data,
+        z = sigs.make(pb, cls, L, 1 * u.MHz, sigs.T0S[0], nchan=n, data=data, layout="keep",
                       center_freq=[400 * u.MHz, 0.4 * u.GHz, 4e8 * u.Hz, 400 * u.MHz][var % 4],       # any unit of the caller's choosing
                       freq_align=align, meta={"k": [1, 2], "s": "x"} if var % 3 else {}, **kw)
         return z, big
